@@ -17,6 +17,8 @@ RULES = {
              "notify the section)",
     "R05.2": "notify protocol and index forwarders (shared descriptor)",
     "R05.3": "membership maintains the index",
+    "R12.x": "the lazy wrapper behind the index: edit-time capture, in-order replay or rebuild on "
+             "every path, queue cleared, client discipline (R12.2-R12.4, shared with C12)",
     "R05.6": "bias agreement of the closed-interval encoding",
     "R05.7": "boundary logic of the tree helpers and of the linear scans nodes_on/nodes_at as "
              "difference constraints",
@@ -51,6 +53,13 @@ def run(chk: Check) -> None:
             n += 1
     chk.floor("R05.3", "index halves of the interval-set primitives", n, 2)
     bias_consumers(chk, "R05.6", ["util", "section"])
+    from .c12 import _capture, _get, _ownership
+    lt = repo.cls("LazyIntervalTree")
+    sub = chk.sub()
+    _ownership(sub, lt)
+    _capture(sub, lt)
+    _get(sub, lt)
+    chk.adopt(sub)
     on_impl(chk, "R05.7")
     at_impl(chk, "R05.7")
     scan_on(chk, "R05.7")
